@@ -299,6 +299,8 @@ class BaseTheory:
 
     # ---- calls -----------------------------------------------------------------
     def call(self, ex, fv, args, kwargs, node):
+        if type(fv).__name__ == "LambdaV" and not kwargs:
+            return ex.call_lambda(fv, args)
         if isinstance(fv, FuncV):
             m = getattr(self, "b_" + fv.name.replace(".", "_"), None)
             if m is not None:
@@ -312,6 +314,12 @@ class BaseTheory:
         if isinstance(fv, BoundM):
             return self.call_method(ex, fv.recv, fv.name, args, kwargs)
         raise Untranslatable(f"call of {fv!r}")
+
+    def b_bool(self, ex, args, kwargs):
+        if not args:
+            return Conc(False)
+        t = ex.truth(args[0])
+        return Conc(t) if isinstance(t, bool) else Z("bool", t)
 
     def module_function(self, name):
         """a module-level private function of the verified modules that has no contract (a helper to be inlined)"""
